@@ -1167,7 +1167,7 @@ def trailing_cards(text):
 def _fail(kind, mode, r=None, **kw):
     d = {"kind": kind, "mode": mode}
     if r is not None:
-        d.update(cls=r.get("cls"), func=r.get("func"), where=r.get("where"), stack=r.get("stack"),
+        d.update(cls=r.get("cls"), func=r.get("func"), where=r.get("where"), stack=r.get("stack"), mro=r.get("mro"),
                  deliberate=r.get("deliberate"), msg=(r.get("msg") or "")[:200])
     d.update(kw)
     d["sig"] = ":".join(str(x) for x in (kind, d.get("cls") or d.get("what") or "", d.get("func") or "") if x != "")
